@@ -5,22 +5,37 @@ from harness.flatten import coq_list, coq_bool
 from harness.props._common import run_eval, replay_eval
 
 PROPS_FILE = "P_C06"
-COQ_TARGETS = ["CaseLib", "CvoModel", "CvoGates"]
+COQ_TARGETS = ["CaseLib", "CvoModel", "CvoGates", "CvoAux"]
 RULE = ("correspondence: the instruction list of CvoqramInitialize(...).definition (with/without auxiliaries, every mcg_method) is "
         "compared inside Coq with CvoModel.cvo_gates for Hamming-sorted dictionaries, n = 2..6/9, together with the executable order premise "
-        "ordered_b of C06_cvo_gates; contract: the 2x2 matrices of the "
+        "ordered_b of C06_cvo_gates / C06_cvo_gates_aux; contract: the 2x2 matrices of the "
         "emitted rotations satisfy the amplitude recurrence x_j = U_j[0,1] g_j, g_(j+1) = U_j[1,1] g_j, g_m = 0 that instantiates "
         "C06_cvo_step; direct evaluation (harness/props/c06_eval.py): full state incl. auxiliaries for merge, pivot and CVO-QRAM. "
         "distinct = distinct (dictionary, options); non-trivial = m >= 2")
-ASSUMPTIONS = ["the multi-controlled U is C04's gate (Mcg / LdMcSpecialUnitary / Qiskit control) or the rccx ladder of _mcuvchain (relative-phase "
-               "Toffolis cancelling pairwise): modelled as ideal, evaluated in the direct evaluation",
+ASSUMPTIONS = ["without auxiliary qubits the multi-controlled U is C04's gate (Mcg / LdMcSpecialUnitary / Qiskit control): modelled as ideal, "
+               "evaluated in the direct evaluation; with auxiliary qubits the rccx ladder of _mcuvchain is part of the proved gate list "
+               "(Qiskit's rccx matrix is compared with CvoGates.rccx on every rccx met)",
                "merge and pivot: evaluated only"]
 TRUSTED = ["top-level instruction list of the definition (no flattening needed)"]
-HEADER = ("From Coq Require Import List Bool Arith.\nFrom QV Require Import CvoModel CvoGates CaseLib.\nImport ListNotations.\n"
+HEADER = ("From Coq Require Import List Bool Arith.\nFrom QV Require Import CvoModel CvoGates CvoAux CaseLib.\nImport ListNotations.\n"
           "Definition cgate_eqb (g h : cgate) : bool := match g, h with\n"
           " | CX0 a, CX0 b => Nat.eqb a b | CCX a b, CCX c d => Nat.eqb a c && Nat.eqb b d\n"
           " | CRCCX a b c, CRCCX a' b' c' => Nat.eqb a a' && Nat.eqb b b' && Nat.eqb c c'\n"
           " | CU j cs t, CU j' cs' t' => Nat.eqb j j' && list_eqb Nat.eqb cs cs' && Nat.eqb t t' | _, _ => false end.\n")
+
+
+def _rccx_ref():
+    """CvoGates.rccx: |a b t> -> phase |a b (t xor ab)>, phase i on |110>, -i on |111>, -1 on |101> (a = first control); index a + 2b + 4t"""
+    M = np.zeros((8, 8), dtype=complex)
+    for a in (0, 1):
+        for b in (0, 1):
+            for t in (0, 1):
+                ph = (1j if t == 0 else -1j) if (a and b) else (-1 if (a and not b and t) else 1)
+                M[a + 2 * b + 4 * (t ^ (a & b)), a + 2 * b + 4 * t] = ph
+    return M
+
+
+RCCX_REF = _rccx_ref()
 
 
 def umat(theta, phi, lam):
@@ -63,6 +78,9 @@ def correspondence(ctx):
                                 items.append(f"CCX {qs[0]} {qs[1]}")
                             elif op.name == "rccx":
                                 items.append(f"CRCCX {qs[0]} {qs[1]} {qs[2]}")
+                                ctx.monitor("qiskit_rccx_matrix")
+                                if np.abs(np.asarray(op.to_matrix()) - RCCX_REF).max() > 1e-12:
+                                    ctx.mismatch("C06 contract: Qiskit's rccx is not the monomial gate CvoGates.rccx of the theorem", {"gate": "rccx"})
                             elif op.name in ("u", "cu") or op.name in ("mcg", "ldmc_su2") or (op.name.endswith("u") and op.name.startswith("c")):
                                 items.append(f"CU {j} {coq_list([str(q) for q in qs[:-1]])} {qs[-1]}")
                                 if op.name in ("u", "cu"):
@@ -86,7 +104,7 @@ def correspondence(ctx):
                         ctx.count(f"corr:cvoqram:aux={aux}:{method}", key=(tuple(d.items()), aux, method), nontrivial=m >= 2,
                                   sample=dict(case, gates=len(items)) if n == 3 and m == 3 else None)
                         plist = coq_list([coq_list([coq_bool(b) for b in p]) for p in pats])
-                        premise = f" && ordered_b (map (ctl_of {n}) {plist})" if not aux else ""
+                        premise = f" && ordered_b (map ({'ctl_ofa' if aux else 'ctl_of'} {n}) {plist})"
                         lines.append(f"(list_eqb cgate_eqb (cvo_gates {n} {coq_bool(aux)} {plist}) {coq_list(items)}{premise})")
                         # amplitude recurrence (premise/instantiation of C06_cvo_step)
                         gcur = 1.0 + 0j
@@ -122,11 +140,12 @@ def replay(ctx, case):
 
 
 MANIFEST = dict(
-    text=("Proof: CVO-QRAM without auxiliary qubits END TO END on the model's gate list, for every n, every number of patterns and every family of rotation "
-          "matrices, modulo the multi-controlled U being ideal: from |0..0> the circuit yields sum_j x_j|pattern_j>|flag=0> + g_m|last pattern>|flag=1> with "
+    text=("Proof: CVO-QRAM END TO END on the model's gate list, for every n, every number of patterns and every family of rotation "
+          "matrices - with auxiliary qubits (the default) including the ladder of relative-phase Toffolis over clean ancillas (C06_cvo_gates_aux), "
+          "without them modulo the multi-controlled U being ideal (C06_cvo_gates): from |0..0> the circuit yields sum_j x_j|pattern_j>|flag=0> + g_m|last pattern>|flag=1> with "
           "x_j = U_j[0,1] g_j, g_(j+1) = U_j[1,1] g_j, under the executable order premise implied by the Hamming-weight order (C06_cvo_gates, C06_cvo_loop, C06_cvo_step). "
           "Tie: the instruction list of CvoqramInitialize (aux/no aux, every backend) is compared inside Coq with CvoModel.cvo_gates together with the order premise; the emitted "
-          "rotation matrices must satisfy x_j = requested amplitude, g_m = 0. The auxiliary-qubit rccx ladder, merge and pivot and all full-state claims are evaluated."),
-    note="Modelled, not verified: the multi-controlled U (C04 gates / Qiskit control / rccx ladder) as ideal; merge and pivot bookkeeping evaluated only.",
+          "rotation matrices must satisfy x_j = requested amplitude, g_m = 0; Qiskit's rccx matrix is compared with the theorem's. Merge and pivot and all full-state claims are evaluated."),
+    note="Modelled, not verified: the multi-controlled U without auxiliaries (C04 gates / Qiskit control) as ideal; Qiskit's rccx/cu matrices (compared numerically); merge and pivot bookkeeping evaluated only.",
     technique="Coq proof (explicit-state loop invariant; flip-flop permutation semantics) + instruction-list correspondence and premise evaluation (vm_compute) + amplitude-recurrence contract + state-vector evaluation",
     design_ref="DESIGN.md section 4, C06")
